@@ -308,6 +308,14 @@ impl<'a> Gen<'a> {
         }
     }
 
+    /// A string of 0..=4 characters over an alphabet chosen to be malformed as often as well-formed:
+    /// parsing must answer Ok or Err, never panic (the space of such strings is small enough to be saturated).
+    fn tiny_text(&mut self) -> String {
+        const ALPHA: [char; 8] = ['+', '-', '_', '0', '1', 'z', ' ', '9'];
+        let n = self.rng.below(5);
+        (0..n).map(|_| *self.rng.pick(&ALPHA)).collect()
+    }
+
     pub fn construct_u(&mut self, d: i128) -> Step {
         if self.p.arrivals && self.rng.chance(1, 8) {
             return self.arrival("u", d);
@@ -374,6 +382,8 @@ impl<'a> Gen<'a> {
                 let mut txt = text_of(self.rng, &v, rr, false, true);
                 if unsafe_ && self.rng.chance(1, 3) {
                     txt = self.rng.pick(&["", "_1", "-", "+", "1__2", "12 3", "-5", "z", "0x10", "\u{e9}"]).to_string();
+                } else if self.rng.chance(1, 10) {
+                    txt = self.tiny_text();
                 }
                 Step::new("u.parse").i("d", d).i("f", f).i("r", r).s("s", &txt)
             }
@@ -469,6 +479,8 @@ impl<'a> Gen<'a> {
                 let mut txt = text_of(self.rng, &v, rr, sg < 0, true);
                 if unsafe_ && self.rng.chance(1, 3) {
                     txt = self.rng.pick(&["", "_1", "-", "+", "--1", "+-1", "1__2", "12 3", "z", "-_1"]).to_string();
+                } else if self.rng.chance(1, 10) {
+                    txt = self.tiny_text();
                 }
                 Step::new("i.parse").i("d", d).i("f", f).i("r", r).s("s", &txt)
             }
@@ -633,12 +645,12 @@ impl<'a> Gen<'a> {
                         let r = if unsafe_ && self.rng.chance(1, 2) { bad_radix(self.rng, true) } else { radix_text(self.rng) };
                         Step::new(&format!("{pre}.to_str")).i("a", a).i("r", r)
                     }
-                    2 => Step::new(&format!("{pre}.fmt")).i("a", a).i("f", self.rng.below(13) as i128),
+                    2 => Step::new(&format!("{pre}.fmt")).i("a", a).i("f", self.rng.below(18) as i128),
                     3 => {
                         let r = if unsafe_ && self.rng.chance(1, 2) { bad_radix(self.rng, false) } else { radix_digits(self.rng) };
                         Step::new(&format!("{pre}.to_radix")).i("a", a).i("f", self.rng.below(2) as i128).i("r", r)
                     }
-                    4 => Step::new(&format!("{pre}.to_bytes")).i("a", a).i("f", self.rng.below(if u { 4 } else { 6 }) as i128),
+                    4 => Step::new(&format!("{pre}.to_bytes")).i("a", a).i("f", self.rng.below(if u { 5 } else { 7 }) as i128),
                     5 => Step::new(&format!("{pre}.to_prim")).i("a", a).i("t", self.rng.below(28) as i128),
                     6 => Step::new(&format!("{pre}.to_digits")).i("a", a).i("f", self.rng.below(2) as i128),
                     7 => Step::new(&format!("{pre}.sum")).i("d", d).i("k", self.rng.below(64) as i128).i("f", self.rng.below(4) as i128),
